@@ -270,6 +270,49 @@
 //   - "list_slices" (per function): byte slices are lists of integers in this
 //     function even if the spec file has "abstract_bytes", and `xs[lo:hi]` on a
 //     list is take/drop also when the function is traced.
+//   - `for cond { body }` (no init / post statement, not nested in a loop and
+//     without a loop inside) is `goFor fuel state fun it st => …` (TrPrelude):
+//     at most `fuel` iterations, `fuel : Nat` being an extra parameter (`fuel2`,
+//     … for further loops; the copies of one loop in a duplicated continuation
+//     share it); the condition is evaluated — and traced — at the start of every
+//     iteration; the loop state are the variables declared outside and assigned
+//     inside, and the trace; `break` / `continue` / `return` work as in range
+//     loops (deferred calls run at a `return` from inside the loop); an opaque
+//     call inside the loop is a parameter `o<k>_f : Nat → T` applied to the
+//     iteration number, so the call may have a different result in every
+//     iteration and theorems quantify over all result *sequences*.  The function
+//     becomes partial: `none` is a panic or "the bound was reached before the loop
+//     ended", so a theorem `… = some r → P r` for all `fuel` covers every finite run;
+//   - a deferred closure that is run inline may itself contain `defer`
+//     statements: they run, last in first out, when the closure's body ends and
+//     before the defers registered earlier by the enclosing function;
+//   - `var x T = v` is `x := v` with v converted to T; `T{}` of an abstract
+//     struct type (outside "symbolic" / "refs") is the value `()`; a concrete
+//     value made by a traced call and stored in an abstract interface
+//     (`var s I = pkg.New(n)`) is non-nil, the call stays in the trace; in a keyed
+//     literal of a translated struct a call in a field of abstract type (which
+//     the structure does not have) is dropped silently when the callee is listed
+//     under "pure" or "ignore" (otherwise it is an error in traced functions);
+//   - "ascii_strings" (per function): strings are read as ASCII texts, so that
+//     byte offsets are character offsets: `len(s)` is `goStrLen s` (number of
+//     characters), `s[lo:hi]` is `goStrSlice? s lo hi` (`none` = panic unless
+//     0 ≤ lo ≤ hi ≤ len), strings.TrimSpace / ToLower / LastIndexByte are the
+//     TrPrelude models goTrimSpace (ASCII white space) / goToLower (Char.toLower)
+//     / goLastIndexByte (-1 when absent); theorems about such a function are
+//     statements about ASCII inputs (for other valid UTF-8 the offsets differ but,
+//     as long as only ASCII bytes are searched for, cut the text at the same places);
+//   - "elem_loop" (per function): in an effect loop over an abstract collection
+//     the value variable may be re-bound from a call on itself,
+//     `v = f(v)` / `v = f(v).(T)`: the call's trace entry followed by
+//     ("rebind v", [source text of the new value]); a value written through an
+//     abstract object that reads the loop variable (`v.Target = p + v.Target`)
+//     is shown as its source text (the entries of the body are a schema that
+//     holds for every element);
+//   - `p == q` / `p != q` on two values of abstract pointer (interface, …) type,
+//     neither being nil, is an opaque Bool value `e<k>_…` (which object a pointer
+//     refers to is not modelled outside "symbolic" / "refs");
+//   - the statement `func() { … }()` (no parameters, no results) runs its body
+//     in place, with its own defers; a `return` inside ends the literal only.
 //
 // Anything else is a translation error: the generated definition is replaced
 // by a marker that makes the Tie theorem fail, i.e. a broken obligation.
@@ -363,6 +406,12 @@ type TrFunc struct {
 	ListSlices bool `json:"list_slices,omitempty"`
 	// TraceNew is the file-level option "trace_new" for this function only.
 	TraceNew bool `json:"trace_new,omitempty"`
+	// AsciiStrings: strings are read as ASCII texts — byte offsets are character
+	// offsets; see the header comment.
+	AsciiStrings bool `json:"ascii_strings,omitempty"`
+	// ElemLoop: in an effect loop over an abstract collection the value variable
+	// may be re-bound (`v = f(v).(T)`) and read in what is written through it.
+	ElemLoop bool `json:"elem_loop,omitempty"`
 }
 
 type trSpecFile struct {
@@ -774,6 +823,11 @@ type fctx struct {
 	nonNil      map[types.Object]bool
 	paramMut    []string // pointer parameters whose fields are assigned (returned after the receiver)
 	elemVars    map[types.Object]string // loop variables over symbolic slices of abstract elements: Lean type
+	forIter     string                  // inside a `for cond {}` loop: the Lean variable holding the iteration number
+	forParams   map[string]bool         // opaque parameters that are functions of the iteration number
+	nFor        int                     // number of `for cond {}` loops translated so far
+	forFuel     map[*ast.ForStmt]string // their bound parameters
+	elemLoopVar types.Object            // "elem_loop": the value variable of the effect loop being translated
 }
 
 type ex struct {
@@ -939,8 +993,17 @@ func (c *fctx) exprAs(e ast.Expr, to types.Type) ex {
 		if _, toIface := to.Underlying().(*types.Interface); toIface && !types.IsInterface(c.typeOf(e)) {
 			// a concrete value stored in an interface is a non-nil interface
 			x := c.expr(e)
-			if strings.Contains(x.code, "«call:") {
-				fail("traced call inside a value converted to an abstract interface: %s", c.show(e))
+			if _, calls := traceSplit(x.code); len(calls) > 0 {
+				// the calls that make the value stay in the trace (in order), the
+				// value itself is a non-nil interface
+				if x.partial {
+					fail("traced call inside a value converted to an abstract interface: %s", c.show(e))
+				}
+				pre := ""
+				for _, m := range calls {
+					pre += "«call:" + m + "»"
+				}
+				return ex{code: pre + "true"}
 			}
 			return c.bindN([]ex{x}, func([]string) string { return "true" })
 		}
@@ -1152,6 +1215,9 @@ func (c *fctx) expr(e ast.Expr) ex {
 		if len(x.Elts) == 0 && c.t.refAbstract(c.typeOf(x)) && c.t.leanType(c.typeOf(x)) == "Int" {
 			return ex{code: "(0 : Int)"} // zero value of an abstract struct: the token 0
 		}
+		if _, isSt := c.typeOf(x).Underlying().(*types.Struct); isSt && len(x.Elts) == 0 && !c.t.symbolic && !c.t.refs && c.t.valType(c.typeOf(x)) == "Unit" {
+			return ex{code: "()"} // `T{}` of an abstract struct type: a value nothing is known about
+		}
 	}
 	if ix, ok := e.(*ast.IndexExpr); ok {
 		if _, isSl := c.typeOf(ix.X).Underlying().(*types.Slice); isSl && c.t.leanType(c.typeOf(ix.X)) != "" && isInt(c.typeOf(ix.Index)) {
@@ -1211,6 +1277,29 @@ func (c *fctx) expr(e ast.Expr) ex {
 			arg = c.traceArg(se)
 		}
 		return ex{code: pre + "«call:(\"slice\", [" + arg + "])»" + name}
+	}
+	if sx, ok := e.(*ast.SliceExpr); ok && !sx.Slice3 && c.spec.AsciiStrings && isString(c.typeOf(sx.X)) {
+		// "ascii_strings": s[lo:hi] by character offsets; out of range => panic
+		c.partial = true
+		str := c.expr(sx.X)
+		parts := []ex{str, {code: "(0 : Int)"}, {code: ""}}
+		if sx.Low != nil {
+			parts[1] = c.expr(sx.Low)
+		}
+		if sx.High != nil {
+			parts[2] = c.expr(sx.High)
+		}
+		r := c.bindN(parts, func(s []string) string {
+			hi := s[2]
+			if hi == "" {
+				hi = "(goStrLen " + s[0] + ")"
+			}
+			return fmt.Sprintf("(goStrSlice? %s %s %s)", s[0], s[1], hi)
+		})
+		if r.partial {
+			return ex{code: "(Option.join " + r.code + ")", partial: true}
+		}
+		return ex{code: r.code, partial: true}
 	}
 	if sx, ok := e.(*ast.SliceExpr); ok && !sx.Slice3 {
 		if _, isSl := c.typeOf(sx.X).Underlying().(*types.Slice); isSl && strings.HasPrefix(c.t.leanType(c.typeOf(sx.X)), "(List") {
@@ -1282,6 +1371,15 @@ func (c *fctx) structLit(x *ast.CompositeLit, st *types.Struct, lt string) ex {
 		}
 		given[k] = true
 		if c.t.leanType(ft) == "" {
+			if call, isCall := ast.Unparen(kv.Value).(*ast.CallExpr); isCall && (c.matches(c.spec.Pure, call) || c.matches(c.spec.Ignore, call)) {
+				allPure := true
+				for _, a := range call.Args {
+					allPure = allPure && !hasCall(a)
+				}
+				if allPure {
+					continue // a call listed under "pure" / "ignore": no trace entry to lose
+				}
+			}
 			if c.trace && hasCall(kv.Value) {
 				fail("call in dropped field %s", c.show(kv)) // its trace entry would be lost
 			}
@@ -1368,6 +1466,7 @@ func (c *fctx) litEntry(cl *ast.CompositeLit) string {
 // slice, a field of a library struct) into an extra parameter holding its value.
 func (c *fctx) opaqueValue(e ast.Expr) ex {
 	if c.loop != nil && !c.spec.LoopOpaque {
+		// (also inside `for cond {}` loops: a per-iteration reading is not implemented)
 		fail("value %s read from an abstract object inside a loop", c.show(e))
 	}
 	lt := c.t.valType(c.typeOf(e))
@@ -1491,6 +1590,10 @@ func (c *fctx) binary(x *ast.BinaryExpr) ex {
 				fail("nil comparison of %s", c.show(x.X))
 			}
 			return c.bindN([]ex{a}, func(s []string) string { return "(" + s[0] + ")." + m })
+		}
+		if c.t.valType(tx) == "AbsPtr" && c.t.leanType(tx) == "" && !c.t.symbolic && !c.t.refs {
+			// identity of two abstract objects (`p != q`) is not modelled: an opaque Bool
+			return c.opaqueValue(x)
 		}
 		a, b := c.expr(x.X), c.expr(x.Y)
 		neg := x.Op == token.NEQ
@@ -1650,6 +1753,10 @@ func (c *fctx) call(x *ast.CallExpr) ex {
 					a := c.expr(x.Args[0])
 					return c.bindN([]ex{a}, func(s []string) string { return "(" + s[0] + ".length : Int)" })
 				}
+				if isString(at) && c.spec.AsciiStrings {
+					a := c.expr(x.Args[0])
+					return c.bindN([]ex{a}, func(s []string) string { return "(goStrLen " + s[0] + ")" })
+				}
 				if isString(at) {
 					a := c.expr(x.Args[0])
 					return c.bindN([]ex{a}, func(s []string) string { return "(" + s[0] + ".utf8ByteSize : Int)" })
@@ -1744,6 +1851,13 @@ func (c *fctx) call(x *ast.CallExpr) ex {
 		}
 		return c.bindN(xs, func(s []string) string { return "(" + fn + " " + strings.Join(s, " ") + ")" })
 	}
+	if fn, ok := map[string]string{"strings.TrimSpace": "goTrimSpace", "strings.ToLower": "goToLower", "strings.LastIndexByte": "goLastIndexByte"}[key]; ok && c.spec.AsciiStrings {
+		var xs []ex
+		for _, a := range x.Args {
+			xs = append(xs, c.expr(a))
+		}
+		return c.bindN(xs, func(s []string) string { return "(" + fn + " " + strings.Join(s, " ") + ")" })
+	}
 	// translated functions
 	if c.matches(c.spec.Opaque, x) {
 		key = ""
@@ -1805,7 +1919,7 @@ func (c *fctx) call(x *ast.CallExpr) ex {
 		}
 	}
 	// opaque call
-	if c.loop != nil && !c.spec.LoopOpaque {
+	if c.loop != nil && !c.spec.LoopOpaque && c.forIter == "" {
 		// one parameter cannot stand for the results of the call in every iteration
 		fail("opaque call %s inside a loop", c.show(x))
 	}
@@ -1818,8 +1932,20 @@ func (c *fctx) call(x *ast.CallExpr) ex {
 	if !seen {
 		c.nOpaque++
 		name = fmt.Sprintf("o%d_%s", c.nOpaque, sanitize(lastName(c.show(x.Fun))))
-		c.opaque = append(c.opaque, fmt.Sprintf("(%s : %s)", name, lt))
+		if c.forIter != "" {
+			// inside a `for cond {}` loop: one result per iteration
+			c.opaque = append(c.opaque, fmt.Sprintf("(%s : Nat → %s)", name, lt))
+			c.forParams[name] = true
+		} else {
+			c.opaque = append(c.opaque, fmt.Sprintf("(%s : %s)", name, lt))
+		}
 		c.opaqueCalls[x] = name
+	}
+	if c.forParams[name] {
+		if c.forIter == "" {
+			fail("opaque call %s is reached both inside and outside a for loop", c.show(x))
+		}
+		name = "(" + name + " " + c.forIter + ")"
 	}
 	if c.trace && !c.matches(c.spec.Pure, x) {
 		return ex{code: "«call:" + c.traceEntry(x) + "»" + name}
@@ -2264,17 +2390,18 @@ func (c *fctx) runDefers(i int, final func() string) string {
 		}
 		return "let tr := tr ++ " + d.traceVar + "\n" + c.runDefers(i-1, final)
 	}
-	prevEnd, prevLoop, prevDefers := c.onEnd, c.loop, c.defers
+	prevEnd, prevLoop, prevDefers, prevIter := c.onEnd, c.loop, c.defers, c.forIter
 	var self func() string
 	self = func() string {
-		c.onEnd, c.loop, c.defers = prevEnd, prevLoop, prevDefers
+		curEnd, curLoop, curDefers, curIter := c.onEnd, c.loop, c.defers, c.forIter
+		c.onEnd, c.loop, c.defers, c.forIter = prevEnd, prevLoop, prevDefers, prevIter
 		out := c.runDefers(i-1, final)
-		c.onEnd, c.loop, c.defers = self, nil, nil
+		c.onEnd, c.loop, c.defers, c.forIter = curEnd, curLoop, curDefers, curIter
 		return out
 	}
-	c.onEnd, c.loop, c.defers = self, nil, nil
+	c.onEnd, c.loop, c.defers, c.forIter = self, nil, nil, ""
 	code := c.stmts(d.body)
-	c.onEnd, c.loop, c.defers = prevEnd, prevLoop, prevDefers
+	c.onEnd, c.loop, c.defers, c.forIter = prevEnd, prevLoop, prevDefers, prevIter
 	return code
 }
 
@@ -2326,41 +2453,9 @@ func (c *fctx) stateTuple(vars []string) string {
 	return "(" + strings.Join(vars, ", ") + ")"
 }
 
-// rangeLoop translates `for i, x := range xs { body }` over a translatable
-// slice: the variables declared outside the loop and assigned inside it (plus
-// the call trace) are the loop state; the body maps a state and an element to
-// `Step.next state'` (also for continue), `Step.brk state'` or `Step.ret r`
-// (a return of the enclosing function; a range loop nested in the body passes
-// such a return on to the outer loop as `Step.ret r`).
-func (c *fctx) rangeLoop(x *ast.RangeStmt, rest []ast.Stmt) string {
-	if x.Tok != token.DEFINE && (x.Key != nil || x.Value != nil) {
-		fail("range with assignment to existing variables")
-	}
-	sl, ok := c.typeOf(x.X).Underlying().(*types.Slice)
-	mp, isMap := c.typeOf(x.X).Underlying().(*types.Map)
-	isMap = isMap && c.t.leanType(mp.Key()) != "" && c.t.leanType(mp.Elem()) != ""
-	if (!ok || c.t.leanType(c.typeOf(x.X)) == "") && !isMap {
-		fail("range over %s", c.typeOf(x.X))
-	}
-	elT := ""
-	if isMap {
-		elT = "(" + c.t.leanType(mp.Key()) + " × " + c.t.leanType(mp.Elem()) + ")"
-	} else {
-		elT = c.t.leanType(sl.Elem())
-		if lt := c.t.leanType(c.typeOf(x.X)); elT == "" && strings.HasPrefix(lt, "(List ") {
-			// a slice type declared symbolic ("[]pkg.T": "(List String)"): the elements
-			// are tokens; the loop variable may be handed to an "fn" callee
-			elT = strings.TrimSuffix(strings.TrimPrefix(lt, "(List "), ")")
-			if id, ok := x.Value.(*ast.Ident); ok && c.p.info.Defs[id] != nil {
-				if c.elemVars == nil {
-					c.elemVars = map[types.Object]string{}
-				}
-				c.elemVars[c.p.info.Defs[id]] = elT
-			}
-		}
-	}
-	// carried variables
-	var vars, varTypes []string
+// carriedVars lists the variables declared outside the loop statement x and
+// assigned inside its body (with their Lean types): the loop state.
+func (c *fctx) carriedVars(x ast.Node, body *ast.BlockStmt) (vars, varTypes []string) {
 	seen := map[string]bool{}
 	add := func(id *ast.Ident) {
 		obj := c.p.info.Uses[id]
@@ -2381,7 +2476,7 @@ func (c *fctx) rangeLoop(x *ast.RangeStmt, rest []ast.Stmt) string {
 		vars = append(vars, leanIdent(id.Name))
 		varTypes = append(varTypes, lt)
 	}
-	ast.Inspect(x.Body, func(n ast.Node) bool {
+	ast.Inspect(body, func(n ast.Node) bool {
 		var targets []ast.Expr
 		switch s := n.(type) {
 		case *ast.AssignStmt:
@@ -2418,6 +2513,123 @@ func (c *fctx) rangeLoop(x *ast.RangeStmt, rest []ast.Stmt) string {
 		}
 		return true
 	})
+	return vars, varTypes
+}
+
+// forLoop translates `for cond { body }` (no init / post statement, not nested
+// in another loop, no loop inside it): `goFor fuel state fun it st => …` runs at
+// most `fuel` iterations (an extra parameter `fuel : Nat`, `fuel<k>` for the k-th
+// such loop of the function; copies of the loop in a duplicated continuation share it), the condition is evaluated (and traced) at the
+// start of every iteration; the loop state are the variables declared outside
+// and assigned inside (and the trace); an opaque call inside the loop is a
+// parameter `o<k>_f : Nat → T` applied to the iteration number `it`.  The
+// function becomes partial: `none` also stands for "the bound was reached before
+// the loop ended", so theorems hold for every fuel.
+func (c *fctx) forLoop(x *ast.ForStmt, rest []ast.Stmt) string {
+	if x.Init != nil || x.Post != nil {
+		fail("for statement with init / post statement")
+	}
+	if c.loop != nil || c.forIter != "" {
+		fail("for statement nested in a loop")
+	}
+	ast.Inspect(x.Body, func(n ast.Node) bool {
+		switch n.(type) {
+		case *ast.ForStmt, *ast.RangeStmt:
+			fail("loop inside a for statement")
+		case *ast.FuncLit:
+			return false
+		}
+		return true
+	})
+	vars, varTypes := c.carriedVars(x, x.Body)
+	if c.trace {
+		vars = append(vars, "tr")
+		varTypes = append(varTypes, "(List (String × List String))")
+	}
+	sigma := "Unit"
+	if len(varTypes) == 1 {
+		sigma = varTypes[0]
+	} else if len(varTypes) > 1 {
+		sigma = "(" + strings.Join(varTypes, " × ") + ")"
+	}
+	if c.forParams == nil {
+		c.forParams, c.forFuel = map[string]bool{}, map[*ast.ForStmt]string{}
+	}
+	// the two copies of a loop in a duplicated continuation share the bound (only one runs)
+	fuel, it := c.forFuel[x], "it"
+	if fuel == "" {
+		c.nFor++
+		fuel = "fuel"
+		if c.nFor > 1 {
+			fuel = fmt.Sprintf("fuel%d", c.nFor)
+		}
+		c.opaque = append(c.opaque, fmt.Sprintf("(%s : Nat)", fuel))
+		c.forFuel[x] = fuel
+	}
+	savedPartial := c.partial
+	c.loop, c.partial, c.forIter = &loopCtx{state: vars}, false, it
+	var body string
+	if x.Cond == nil {
+		body = c.stmts(x.Body.List)
+	} else {
+		body = c.withEx(c.expr(x.Cond), func(code string) string {
+			return fmt.Sprintf("if %s then\n%s\nelse\n  «step»(.brk %s)", code, indent(c.stmts(x.Body.List)), c.stateTuple(vars))
+		})
+	}
+	bodyPartial := c.partial
+	c.loop, c.partial, c.forIter = nil, true, ""
+	_ = savedPartial
+	fn, wrap := "goFor", ""
+	if bodyPartial {
+		fn, wrap = "goFor?", "some "
+	}
+	body = strings.ReplaceAll(body, "«step»", wrap)
+	destr := ""
+	if len(vars) > 1 {
+		destr = "let " + c.stateTuple(vars) + " := st\n"
+	} else if len(vars) == 1 {
+		destr = "let " + vars[0] + " := st\n"
+	}
+	loop := fmt.Sprintf("%s (σ := %s) (ρ := «rho») %s %s fun (%s : Nat) st =>\n%s", fn, sigma, fuel, c.stateTuple(vars), it, indent(destr+body))
+	after := c.stmts(rest)
+	return fmt.Sprintf("match %s with\n| none => none\n| some (.inr r) => «ret»r\n| some (.inl st) =>\n%s", loop, indent(destr+after))
+}
+
+// rangeLoop translates `for i, x := range xs { body }` over a translatable
+// slice: the variables declared outside the loop and assigned inside it (plus
+// the call trace) are the loop state; the body maps a state and an element to
+// `Step.next state'` (also for continue), `Step.brk state'` or `Step.ret r`
+// (a return of the enclosing function; a range loop nested in the body passes
+// such a return on to the outer loop as `Step.ret r`).
+func (c *fctx) rangeLoop(x *ast.RangeStmt, rest []ast.Stmt) string {
+	if x.Tok != token.DEFINE && (x.Key != nil || x.Value != nil) {
+		fail("range with assignment to existing variables")
+	}
+	sl, ok := c.typeOf(x.X).Underlying().(*types.Slice)
+	mp, isMap := c.typeOf(x.X).Underlying().(*types.Map)
+	isMap = isMap && c.t.leanType(mp.Key()) != "" && c.t.leanType(mp.Elem()) != ""
+	if (!ok || c.t.leanType(c.typeOf(x.X)) == "") && !isMap {
+		fail("range over %s", c.typeOf(x.X))
+	}
+	elT := ""
+	if isMap {
+		elT = "(" + c.t.leanType(mp.Key()) + " × " + c.t.leanType(mp.Elem()) + ")"
+	} else {
+		elT = c.t.leanType(sl.Elem())
+		if lt := c.t.leanType(c.typeOf(x.X)); elT == "" && strings.HasPrefix(lt, "(List ") {
+			// a slice type declared symbolic ("[]pkg.T": "(List String)"): the elements
+			// are tokens; the loop variable may be handed to an "fn" callee
+			elT = strings.TrimSuffix(strings.TrimPrefix(lt, "(List "), ")")
+			if id, ok := x.Value.(*ast.Ident); ok && c.p.info.Defs[id] != nil {
+				if c.elemVars == nil {
+					c.elemVars = map[types.Object]string{}
+				}
+				c.elemVars[c.p.info.Defs[id]] = elT
+			}
+		}
+	}
+	// carried variables
+	vars, varTypes := c.carriedVars(x, x.Body)
 	if c.trace {
 		vars = append(vars, "tr")
 		varTypes = append(varTypes, "(List (String × List String))")
@@ -2491,9 +2703,18 @@ func (c *fctx) rangeLoop(x *ast.RangeStmt, rest []ast.Stmt) string {
 	})
 }
 
+// closureEnd ends the body of a deferred closure that is being run inline: the
+// defers the closure registered itself run first, then the enclosing exit goes on.
+func (c *fctx) closureEnd() string {
+	if len(c.defers) == 0 {
+		return c.onEnd()
+	}
+	return c.runDefers(len(c.defers)-1, c.onEnd)
+}
+
 func (c *fctx) stmts(list []ast.Stmt) string {
 	if len(list) == 0 && c.loop == nil && c.onEnd != nil {
-		return c.onEnd()
+		return c.closureEnd()
 	}
 	if len(list) == 0 && c.loop != nil {
 		return "«step»(.next " + c.stateTuple(c.loop.state) + ")"
@@ -2513,7 +2734,7 @@ func (c *fctx) stmts(list []ast.Stmt) string {
 	switch x := s.(type) {
 	case *ast.ReturnStmt:
 		if len(x.Results) == 0 && c.onEnd != nil && c.loop == nil {
-			return c.onEnd()
+			return c.closureEnd()
 		}
 		if len(x.Results) == 0 {
 			var vals []string
@@ -2567,6 +2788,7 @@ func (c *fctx) stmts(list []ast.Stmt) string {
 			if c.nOpaque != n {
 				fail("loop body reads values that vary per element")
 			}
+			c.elemLoopVar = nil
 			return "let tr := tr ++ [(\"end\", [])]\n" + c.stmts(rest)
 		}
 		return c.stmts(rest)
@@ -2593,6 +2815,11 @@ func (c *fctx) stmts(list []ast.Stmt) string {
 			switch s := b.(type) {
 			case *ast.RangeStmt, *ast.ExprStmt:
 			case *ast.AssignStmt:
+				if vid, isId := x.Value.(*ast.Ident); c.spec.ElemLoop && isId && len(s.Lhs) == 1 && len(s.Rhs) == 1 && s.Tok == token.ASSIGN {
+					if l, ok := s.Lhs[0].(*ast.Ident); ok && c.p.info.Uses[l] != nil && c.p.info.Uses[l] == c.p.info.Defs[vid] {
+						continue // "elem_loop": the value variable is re-bound
+					}
+				}
 				if len(s.Lhs) != 1 || s.Tok != token.ASSIGN || !c.abstractTarget(s.Lhs[0]) {
 					fail("assignment %s in a loop over an abstract collection", c.show(s))
 				}
@@ -2605,8 +2832,13 @@ func (c *fctx) stmts(list []ast.Stmt) string {
 			c.loopEnd = map[*ast.EmptyStmt]int{}
 		}
 		c.loopEnd[end] = c.nOpaque
+		if vid, isId := x.Value.(*ast.Ident); c.spec.ElemLoop && isId {
+			c.elemLoopVar = c.p.info.Defs[vid]
+		}
 		return fmt.Sprintf("let tr := tr ++ [(\"for\", [%q])]\n", head) +
 			c.stmts(append(append(append([]ast.Stmt{}, x.Body.List...), end), rest...))
+	case *ast.ForStmt:
+		return c.forLoop(x, rest)
 	case *ast.TypeSwitchStmt:
 		if c.typeSwitchSubjectSymbolic(x) {
 			return c.typeSwitch(x, rest)
@@ -2638,6 +2870,10 @@ func (c *fctx) stmts(list []ast.Stmt) string {
 		out := ""
 		for _, sp := range gd.Specs {
 			vs := sp.(*ast.ValueSpec)
+			if len(vs.Values) == 1 && len(vs.Names) == 1 && len(gd.Specs) == 1 {
+				// `var x T = v` is `x := v` with v converted to T
+				return c.assign(vs.Names[0], c.exprAs(vs.Values[0], c.p.info.Defs[vs.Names[0]].Type()), rest, nil)
+			}
 			if len(vs.Values) > 0 {
 				fail("var with values %s", c.show(x))
 			}
@@ -2664,6 +2900,18 @@ func (c *fctx) stmts(list []ast.Stmt) string {
 			return r
 		}), rest, nil)
 	case *ast.AssignStmt:
+		if l, ok := x.Lhs[0].(*ast.Ident); ok && c.elemLoopVar != nil && len(x.Lhs) == 1 && len(x.Rhs) == 1 && c.p.info.Uses[l] == c.elemLoopVar {
+			// "elem_loop": `v = f(v).(T)` — the call is traced, then ("rebind v", [source of the new value])
+			var inner ast.Expr = ast.Unparen(x.Rhs[0])
+			if ta, ok := inner.(*ast.TypeAssertExpr); ok {
+				inner = ast.Unparen(ta.X)
+			}
+			call, ok := inner.(*ast.CallExpr)
+			if !ok {
+				fail("re-binding %s of a loop variable", c.show(x))
+			}
+			return fmt.Sprintf("let tr := tr ++ [%s, (%q, [%q])]\n", c.traceEntry(call), "rebind "+l.Name, c.show(x.Rhs[0])) + c.stmts(rest)
+		}
 		if len(x.Lhs) == 1 && len(x.Rhs) == 1 && (x.Tok == token.ASSIGN || x.Tok == token.DEFINE) {
 			if call, ok := x.Rhs[0].(*ast.CallExpr); ok && c.isListCopy(call) {
 				return c.copyStmt(x.Lhs[0], call, rest)
@@ -2677,6 +2925,22 @@ func (c *fctx) stmts(list []ast.Stmt) string {
 		}
 		if c.isListCopy(call) {
 			return c.copyStmt(nil, call, rest)
+		}
+		if fl, ok := call.Fun.(*ast.FuncLit); ok && len(call.Args) == 0 && fl.Type.Params.NumFields() == 0 && fl.Type.Results.NumFields() == 0 {
+			// `func() { … }()`: the body runs here, with its own defers
+			prevEnd, prevLoop, prevDefers := c.onEnd, c.loop, c.defers
+			var self func() string
+			self = func() string {
+				curEnd, curLoop, curDefers := c.onEnd, c.loop, c.defers
+				c.onEnd, c.loop, c.defers = prevEnd, prevLoop, prevDefers
+				out := c.stmts(rest)
+				c.onEnd, c.loop, c.defers = curEnd, curLoop, curDefers
+				return out
+			}
+			c.onEnd, c.loop, c.defers = self, nil, nil
+			code := c.stmts(fl.Body.List)
+			c.onEnd, c.loop, c.defers = prevEnd, prevLoop, prevDefers
+			return code
 		}
 		if c.matches(c.spec.Ignore, call) {
 			return c.stmts(rest)
@@ -3156,7 +3420,20 @@ func (c *fctx) abstractWrite(lhs ast.Expr, op string, rhs ast.Expr, k func() str
 	if !c.trace {
 		fail("assignment to %s, a field of an abstract object (needs trace)", c.show(lhs))
 	}
-	val := c.traceArg(rhs)
+	val := "\"_\""
+	mentionsElem := false
+	if c.elemLoopVar != nil {
+		ast.Inspect(rhs, func(n ast.Node) bool {
+			if id, ok := n.(*ast.Ident); ok && c.p.info.Uses[id] == c.elemLoopVar {
+				mentionsElem = true
+			}
+			return !mentionsElem
+		})
+	}
+	if !mentionsElem {
+		// ("elem_loop": a value that reads the loop variable is shown as its source text)
+		val = c.traceArg(rhs)
+	}
 	if id, ok := rhs.(*ast.Ident); ok && strings.HasPrefix(id.Name, "«") {
 		val = strings.Trim(id.Name, "«»") // already evaluated by the caller
 	} else if val == "\"_\"" {
